@@ -22,8 +22,8 @@ from .core import (CTX, SymInt, SymBool, SymBytes, SymStr, SymArrayB, SymKey, Un
 
 REPO_SRC = os.environ.get("VERIF_REPO_SRC", "/repo/src")
 
-H_CALL, H_GET, H_SET, H_DEL, H_IN, H_NOT, H_IS, H_MOD = (
-    "_sx_call_", "_sx_getitem_", "_sx_setitem_", "_sx_delitem_", "_sx_in_", "_sx_not_", "_sx_is_", "_sx_mod_")
+H_CALL, H_GET, H_SET, H_DEL, H_IN, H_NOT, H_IS, H_MOD, H_FSTR = (
+    "_sx_call_", "_sx_getitem_", "_sx_setitem_", "_sx_delitem_", "_sx_in_", "_sx_not_", "_sx_is_", "_sx_mod_", "_sx_fstr_")
 
 _NO_REWRITE_CALLS = {"super", "locals", "globals", "vars", "eval", "exec", "dir"}
 
@@ -88,6 +88,20 @@ class Instr(ast.NodeTransformer):
         if isinstance(node.op, ast.Mod) and isinstance(node.left, ast.Constant) and isinstance(node.left.value, (str, bytes)):
             return ast.copy_location(ast.Call(ast.Name(H_MOD, ast.Load()), [node.left, node.right], []), node)
         return node
+
+    def visit_JoinedStr(self, node):
+        # f-string -> helper, so that symbolic values that flow into text stay symbolic (str.__format__ must return str)
+        self.generic_visit(node)
+        elts = []
+        for v in node.values:
+            if isinstance(v, ast.Constant):
+                elts.append(v)
+            elif isinstance(v, ast.FormattedValue):
+                spec = v.format_spec if v.format_spec is not None else ast.Constant("")
+                elts.append(ast.Tuple([v.value, ast.Constant(v.conversion), spec], ast.Load()))
+            else:
+                elts.append(v)
+        return ast.copy_location(ast.Call(ast.Name(H_FSTR, ast.Load()), [ast.List(elts, ast.Load())], []), node)
 
     def visit_Call(self, node):
         self.generic_visit(node)
@@ -228,6 +242,29 @@ def sx_mod(fmt, args):
     return fmt % args
 
 
+def sx_fstr(parts):
+    out = ""
+    for p in parts:
+        if isinstance(p, (str, SymStr)):
+            piece = p
+        else:
+            val, conv, spec = p
+            if conv == 114:
+                val = repr(val)
+            elif conv == 115:
+                val = str(val)
+            elif conv == 97:
+                val = ascii(val)
+            if isinstance(val, SymInt):
+                piece = val.__format__(spec if isinstance(spec, str) else str(spec))
+            elif isinstance(val, SymStr) and not spec:
+                piece = val
+            else:
+                piece = format(val, spec if isinstance(spec, str) else str(spec))
+        out = piece if (isinstance(out, str) and out == "") else out + piece
+    return out
+
+
 def has_sym(x, d=2):
     if isinstance(x, SYM_TYPES):
         return True
@@ -333,6 +370,82 @@ def m_b64encode(data, altchars=None):
             enc[4 - pad:] = [ord("=")] * pad
         out.extend(enc)
     return mkbytes(out)
+
+
+def m_b2a_base64(data, newline=True):
+    out = m_b64encode(data)
+    return out + b"\n" if newline else out
+
+
+def m_encodebytes(data):
+    items = list(data)
+    out = []
+    for i in range(0, len(items), 57):                 # MAXBINSIZE = 57 -> 76 output characters per line
+        out.extend(list(m_b2a_base64(mkbytes(items[i:i + 57]))))
+    return mkbytes(out)
+
+
+def _b64_sextet(c):
+    """(value, valid) of one base64 alphabet character; symbolic characters are decoded without forking"""
+    if isinstance(c, int):
+        i = _B64.find(bytes([c]))
+        return (i if i >= 0 else 0), i >= 0
+    up, lo, dg = (c >= 65) & (c <= 90), (c >= 97) & (c <= 122), (c >= 48) & (c <= 57)
+    v = ite(up, c - 65, ite(lo, c - 71, ite(dg, c + 4, ite(c == 43, 62, 63))))
+    return v, (up | lo | dg | (c == 43) | (c == 47))
+
+
+def m_b64decode(data, altchars=None, validate=False):
+    if altchars is not None:
+        raise Unsupported("b64 altchars")
+    items = list(data.items) if isinstance(data, (SymBytes, SymStr)) else [ord(ch) if isinstance(ch, str) else ch for ch in data]
+    # strip padding (concrete positions only)
+    pad = 0
+    while items and isinstance(items[-1], int) and items[-1] == 61:
+        items.pop()
+        pad += 1
+    if (len(items) + pad) % 4:
+        raise _binascii.Error("Incorrect padding")
+    out = []
+    pairs = [_b64_sextet(c) for c in items]
+    allvalid = True
+    for _, ok in pairs:
+        allvalid = ok if allvalid is True else (allvalid & ok)
+    if not bool(allvalid):
+        raise _binascii.Error("Invalid base64-encoded string")
+    vals = [v for v, _ in pairs]
+    for i in range(0, len(items), 4):
+        grp = vals[i:i + 4]
+        n = len(grp)
+        grp = grp + [0] * (4 - n)
+        v = (SymInt.lift(grp[0]) << 18) | (SymInt.lift(grp[1]) << 12) | (SymInt.lift(grp[2]) << 6) | grp[3]
+        bs = [(v >> 16) & 255, (v >> 8) & 255, v & 255]
+        out.extend(bs[:n - 1])
+    return mkbytes(out)
+
+
+def _hexval(c):
+    if isinstance(c, int):
+        try:
+            return int(chr(c), 16), True
+        except ValueError:
+            return 0, False
+    dg, lo, up = (c >= 48) & (c <= 57), (c >= 97) & (c <= 102), (c >= 65) & (c <= 70)
+    return ite(dg, c - 48, ite(lo, c - 87, c - 55)), (dg | lo | up)
+
+
+def m_a2b_hex(data):
+    items = list(data.items) if isinstance(data, (SymBytes, SymStr)) else [ord(ch) if isinstance(ch, str) else ch for ch in data]
+    if len(items) % 2:
+        raise _binascii.Error("Odd-length string")
+    pairs = [_hexval(c) for c in items]
+    allvalid = True
+    for _, ok in pairs:
+        allvalid = ok if allvalid is True else (allvalid & ok)
+    if not bool(allvalid):
+        raise _binascii.Error("Non-hexadecimal digit found")
+    vals = [v for v, _ in pairs]
+    return mkbytes([(SymInt.lift(vals[i]) << 4) | vals[i + 1] for i in range(0, len(vals), 2)])
 
 
 def m_len(x):
@@ -468,6 +581,11 @@ MODELS = {
     _struct.unpack: m_unpack,
     _struct.pack: m_pack,
     _base64.b64encode: m_b64encode,
+    _base64.b64decode: m_b64decode,
+    _base64.encodebytes: m_encodebytes,
+    _binascii.b2a_base64: m_b2a_base64,
+    _binascii.a2b_hex: m_a2b_hex,
+    _binascii.unhexlify: m_a2b_hex,
     len: m_len,
     int: m_int,
     bool: m_bool,
@@ -505,14 +623,14 @@ def sx_call(f, *args, **kw):
     if not (has_sym(args) or (kw and has_sym(list(kw.values())))):
         return f(*args, **kw)
     # ---- at least one symbolic argument ----
-    if isinstance(f, (types.FunctionType, types.MethodType)):
-        return f(*args, **kw)
     try:
         m = MODELS.get(f)
     except TypeError:
         m = None
     if m is not None:
         return m(*args, **kw)
+    if isinstance(f, (types.FunctionType, types.MethodType)):
+        return f(*args, **kw)
     if isinstance(f, type):
         if f.__module__ != "builtins":
             return f(*args, **kw)          # python-level class constructor
@@ -593,7 +711,7 @@ def sx_call(f, *args, **kw):
     raise Unsupported("call %r with symbolic argument has no model" % (getattr(f, "__qualname__", f),))
 
 
-HELPERS = {H_CALL: sx_call, H_GET: sx_getitem, H_SET: sx_setitem, H_DEL: sx_delitem, H_IN: sx_in,
+HELPERS = {H_FSTR: sx_fstr, H_CALL: sx_call, H_GET: sx_getitem, H_SET: sx_setitem, H_DEL: sx_delitem, H_IN: sx_in,
            H_NOT: sx_not, H_IS: sx_is, H_MOD: sx_mod}
 
 
